@@ -171,10 +171,13 @@ func checkC07(p *Program, r *Result) {
 		why := "no wrapped Read call"
 		hashedReads := map[ssa.Value]bool{}
 		nw := 0
-		for _, ci := range callsIn(rd, func(ci ssa.CallInstruction) bool { return ci.Common().IsInvoke() && ci.Common().Method.Name() == "Write" }) {
+		for _, ci := range callsIn(rd, func(ci ssa.CallInstruction) bool {
+			return ci.Common().IsInvoke() && ci.Common().Method.Name() == "Write" || calleeIs(ci, "hash/crc32.Update")
+		}) {
 			nw++
 			good := false
-			if sl, ok2 := ci.Common().Args[0].(*ssa.Slice); ok2 && sl.X == ssa.Value(rd.Params[1]) && sl.Low == nil {
+			hashArg := ci.Common().Args[len(ci.Common().Args)-1] // Write(p[:n]) / crc32.Update(sum, table, p[:n])
+			if sl, ok2 := hashArg.(*ssa.Slice); ok2 && sl.X == ssa.Value(rd.Params[1]) && sl.Low == nil {
 				if ex, ok3 := sl.High.(*ssa.Extract); ok3 && ex.Index == 0 {
 					if rc, ok4 := ex.Tuple.(*ssa.Call); ok4 && rc.Call.IsInvoke() && rc.Call.Method.Name() == "Read" && instrDominates(rc, ci) {
 						good = true
